@@ -141,17 +141,20 @@ func genXm(r *core.Rand, pr Profile, sec bool, mayClose bool, seqMode bool) stri
 			rs = "pass"
 		}
 	}
-	if (rq == "skip" || rq == "errskip") && rb > 2000 && askedClose(pv, ct) {
-		// nobody reads the body of a request whose round trip is skipped; when the connection is closed
-		// right after the response the kernel answers the unread upload with RST, which can destroy the
-		// response on its way (the same transport artefact as with pipelined batches, DESIGN section 7 b):
-		// keep such uploads inside what the proxy has read together with the head
+	capUnread := func() {
 		rb = r.Range(0, 2000)
 		for i := range kv {
 			if strings.HasPrefix(kv[i], "rb=") {
 				kv[i] = fmt.Sprintf("rb=%d", rb)
 			}
 		}
+	}
+	if (rq == "skip" || rq == "errskip") && rb > 2000 && askedClose(pv, ct) {
+		// nobody reads the body of a request whose round trip is skipped; when the connection is closed
+		// right after the response the kernel answers the unread upload with RST, which can destroy the
+		// response on its way (the same transport artefact as with pipelined batches, DESIGN section 7 b):
+		// keep such uploads inside what the proxy has read together with the head
+		capUnread()
 	}
 	kv = append(kv, "rq="+rq, "rs="+rs)
 	kv = append(kv, errKinds(r, rq, rs)...)
@@ -169,6 +172,9 @@ func genXm(r *core.Rand, pr Profile, sec bool, mayClose bool, seqMode bool) stri
 	}
 	if !mayClose && o == "trunc" {
 		o = "fail"
+	}
+	if o == "fail" && rb > 2000 && askedClose(pv, ct) { // same: a failed round trip leaves the upload unread
+		capUnread()
 	}
 	ob := bodyLen(r, pr.BigBodies)
 	of := r.Pick("cl", "cl", "ch", "ch", "close")
